@@ -5,7 +5,7 @@ from sympy import Matrix
 from vsa import front
 from vsa.facts import Facts, unwrap, show, walk, lit_value
 from vsa.front import AnalysisBroken
-from vsa.alg import Fold, S, F as Fn, equal, vec_atoms, guard_strs, sqrt
+from vsa.alg import Fold, S, F as Fn, equal, is_zero, vec_atoms, guard_strs, sqrt
 from vsa.cfg import CFG
 
 LEVEL = "proof"
@@ -352,87 +352,83 @@ def decompose_sum(e):
 
 
 def check_initialize(rep, f, F):
-    # normalisation statements in source order
-    norm_def = None
-    normalised = {}
-    accumulate_of = None
-    for n in f.walk():
-        k = n.get("k")
-        if k == "decl":
-            for d in n["decls"]:
-                if d["name"] == "norm" and d.get("init") is not None:
-                    norm_def = d["init"]
-        elif k == "assign" and n["op"] == "=" and unwrap(n["lhs"]).get("name") == "norm":
-            norm_def = n["rhs"]
-        elif k == "call" and n.get("callee") == "std::transform":
-            a = [show(x) for x in n["args"][:3]]
-            vec = a[0].split(".")[0]
-            lam = unwrap(n["args"][3])
-            while lam.get("k") in ("construct", "cast") and lam.get("args"):
-                lam = unwrap(lam["args"][0])
-            ok = a == ["%s.begin()" % vec, "%s.end()" % vec, "%s.begin()" % vec] and lam.get("k") == "lambda"
-            body_ok = False
-            if ok:
-                rets = [x for x in walk(lam["body"]) if x.get("k") == "return"]
-                if len(rets) == 1:
-                    e = unwrap(rets[0]["value"])
-                    if e.get("k") == "binop" and e["op"] == "*":
-                        names = sorted([show(e["lhs"]), show(e["rhs"])])
-                        pname = lam["params"][0]["name"] if lam.get("params") else "?"
-                        body_ok = names == sorted([pname, "norm"])
-            nd = unwrap(norm_def) if norm_def else None
-            nd_ok = False
-            if nd is not None and nd.get("k") == "binop" and nd["op"] == "/" and lit_value(nd["lhs"]) == 1:
-                acc = unwrap(nd["rhs"])
-                if acc.get("k") == "call" and acc.get("callee") == "std::accumulate":
-                    aa = [show(x) for x in acc["args"]]
-                    nd_ok = aa[0] == "%s.begin()" % vec and aa[1] == "%s.end()" % vec and lit_value(acc["args"][2]) == 0
-            normalised[vec] = (ok and body_ok and nd_ok, n)
-    for vec in ("weights", "d"):
-        okv, node = normalised.get(vec, (False, None))
-        rep.check(okv, "R1.3", "normalise|" + vec, "%s[i] <- %s[i] / SUM %s" % (vec, vec, vec),
-                  "Map_Sphere::Initialize does not normalise %s by 1/accumulate(%s) (transform with x*norm)" % (vec, vec), f.loc(node), sample=True)
-    # d := weights when absent
-    cp = [n for n in f.walk() if n.get("k") == "call" and n.get("callee") == "std::copy"]
-    ok = len(cp) == 1 and [show(x) for x in cp[0]["args"]] == ["weights.begin()", "weights.end()", "d.begin()"]
-    if ok:
-        ifs = [a for a in f.ancestors(cp[0]) if a.get("k") == "if"]
-        ok = bool(ifs) and "exists(" in show(ifs[0]["cond"]) and '"d"' in show(ifs[0]["cond"]) and any(x.get("id") == cp[0]["id"] for x in walk(ifs[0]["else"]))
-    rep.check(ok, "R1.3", "default-d", "d := weights when the map has no <d>", "Map_Sphere::Initialize does not default d to the (normalised) weights when <d> is absent", f.loc(cp[0] if cp else None))
-    # force weights
-    fo = Fold(f, opaque_types=r"^(const )?std::vector<").run()
-    st = [e for e in fo.events if e["kind"] == "store" and e["target"].startswith("fweights[")]
-    div = [e for e in st if str(e["value"]) != "0"]
-    zero = [e for e in st if str(e["value"]) == "0"]
-    ok = len(div) == 1 and len(zero) == 1
-    why = "stores to fweights: %s" % [(str(e["value"]), guard_strs(fo, e["guards"])[-1:]) for e in st]
-    if ok:
-        v = div[0]["value"]
-        num, den = sp.fraction(v)
-        gc = div[0]["guards"][-1]
-        shape = (str(getattr(num, "func", "")) == "at" and str(getattr(den, "func", "")) == "at" and str(num.args[0]) == "d"
-                 and str(den.args[0]) == "weights" and num.args[1] == den.args[1])
-        gl = guard_strs(fo, div[0]["guards"])[-1]
-        gok = isinstance(gc[0], tuple) and gc[0][0] == "!=" and gc[1] and gc[0][1] == den and gc[0][2] == 0
-        ok = shape and gok
-        if not ok:
-            why = "force weight is %s under %s, required d[i]/weights[i] under weights[i] != 0" % (v, gl)
-    rep.check(ok, "R1.3", "force-weight", "fweights[i] = d[i]/weights[i] (0 when weights[i] == 0)", "Map_Sphere::Initialize: " + why,
-              f.loc(div[0]["node"] if div else None), sample=True)
+    # element-wise fold of the whole function: what AddElem receives for a generic element k
+    from vsa.vecfold import VecFold, K, KB, SUMK, resolve_ite, havoc_atoms
+    fo = VecFold(f, record_calls=r"Map_Sphere::AddElem$", opaque_types=r"std::vector<std::(__cxx11::)?(basic_)?string").run()
+    ae = [e for e in fo.events if e["kind"] == "call" and e["callee"] == C + "Map_Sphere::AddElem"]
+    rep.floor("R1.3", len(ae), 1, "AddElem calls in Map_Sphere::Initialize")
+    if len(ae) != 1 or len(ae[0]["args"]) != 3:
+        rep.broken("R1.3", "Map_Sphere::Initialize: expected one AddElem(bead, weight, force_weight) call, found %d" % len(ae))
+    call = ae[0]
+    each = [g for g in call["guards"] if isinstance(g[0], tuple) and g[0][0] == "each"]
+    if not each:
+        rep.broken("R1.3", "Map_Sphere::Initialize: AddElem is not called from a loop over all sub-beads (guards %s)" % guard_strs(fo, call["guards"]))
+    w_arg, f_arg = call["args"][1], call["args"][2]
+    if isinstance(w_arg, (Matrix, tuple)) or isinstance(f_arg, (Matrix, tuple)):
+        rep.broken("R1.3", "Map_Sphere::Initialize: AddElem arguments do not fold to scalars")
+    hv = havoc_atoms(w_arg) + havoc_atoms(f_arg)
+    if hv:
+        rep.broken("R1.3", "Map_Sphere::Initialize: a weight vector is modified in a way the element-wise fold does not model: %s" % hv)
+    # base atoms: the tokenised <weights> and <d> strings
+    from sympy.core.function import AppliedUndef
+    ats = {a for e in (w_arg, f_arg) for a in e.atoms(AppliedUndef) if str(a.func) == "at" and len(a.args) == 2 and a.args[1] == K}
+    w0 = [a for a in ats if '"weights"' in str(a.args[0])]
+    d0 = [a for a in ats if '"d"' in str(a.args[0])]
+    if len(w0) != 1 or len(d0) != 1:
+        rep.broken("R1.3", "Map_Sphere::Initialize: cannot identify the <weights>/<d> sources in the AddElem arguments (%s)" % sorted(map(str, ats)))
+    w0, d0 = w0[0], d0[0]
+    W = w0 / SUMK(w0.xreplace({K: KB}))
+    D = d0 / SUMK(d0.xreplace({K: KB}))
+    nz = lambda c: True if re.search(r"!= 0\)?$", c) and "at(" in c else (False if re.search(r"== 0\)?$", c) and "at(" in c else None)
+    hasd = lambda c: True if (c.startswith("exists(") and '"d"' in c) else (False if c.startswith("!(exists(") and '"d"' in c else None)
+    pick = lambda *fs: (lambda c: next((r for r in (g(c) for g in fs) if r is not None), None))
+    rep.check(is_zero(w_arg - W), "R1.3", "normalise|weights", "stored weight of sub-bead k = w_k / SUM w",
+              "Map_Sphere::Initialize passes weight %s to AddElem, required w_k/SUM(w)" % str(w_arg)[:300], f.loc(call["node"]), sample=True)
+    fd = resolve_ite(f_arg, pick(nz, hasd))
+    rep.check(is_zero(fd - D / W), "R1.3", "normalise|d", "force weight with <d> = (d_k/SUM d)/(w_k/SUM w)",
+              "Map_Sphere::Initialize passes force weight %s to AddElem when <d> is given, required (d_k/SUM d)/(w_k/SUM w)" % str(fd)[:300],
+              f.loc(call["node"]), sample=True)
+    fn = resolve_ite(f_arg, pick(nz, lambda c: (not hasd(c)) if hasd(c) is not None else None))
+    rep.check(is_zero(fn - 1), "R1.3", "default-d", "d := weights when the map has no <d> (force weight 1)",
+              "Map_Sphere::Initialize passes force weight %s to AddElem when <d> is absent, required 1" % str(fn)[:300], f.loc(call["node"]))
+    fz = resolve_ite(f_arg, pick(lambda c: (not nz(c)) if nz(c) is not None else None, hasd))
+    unresolved = [str(a) for e in (fd, fn, fz) for a in sp.preorder_traversal(e) if str(getattr(a, "func", "")) == "ite"]
+    if unresolved:
+        rep.broken("R1.3", "Map_Sphere::Initialize: force weight depends on a condition the rule does not know: %s" % unresolved[:2])
+    rep.check(is_zero(fz), "R1.3", "force-weight", "force weight = 0 when the weight is 0", "Map_Sphere::Initialize passes force weight %s for a zero weight" % str(fz)[:200],
+              f.loc(call["node"]), sample=True)
+    # the bead handed to AddElem is the sub-bead named beads[k]
+    b_arg = str(fo.scalarize(call["args"][0]))
+    rep.check("getBead" in b_arg and "getBeadByName" in b_arg and "beads" in b_arg and str(K) in b_arg, "R1.3", "addelem-call", "AddElem(in->getBead(in->getBeadByName(beads[k])), ..)",
+              "AddElem receives bead %s" % b_arg[:200], f.loc(call["node"]))
     # throws: size mismatches and w=0,d!=0
     tg = [" & ".join(guard_strs(fo, g)) for g in fo.throws]
     need = {"beads/weights size": lambda s: "size(beads)" in s and "size(weights)" in s and "!=" in s,
             "beads/d size": lambda s: "size(beads)" in s and "size(d)" in s and "!=" in s,
-            "w=0 with d!=0": lambda s: "at(weights" in s and "== 0" in s and "at(d" in s and "!= 0" in s}
+            }
+    def wd_throw(g):
+        if not g:
+            return False
+        c, pol = g[-1][0], g[-1][1]
+        if not (pol and isinstance(c, tuple) and c[0] == "&&" and len(c) == 3):
+            return False
+        l, r = c[1], c[2]
+        if not (isinstance(l, tuple) and isinstance(r, tuple) and l[0] == "==" and r[0] == "!=" and l[2] == 0 and r[2] == 0):
+            l, r = r, l
+        if not (isinstance(l, tuple) and isinstance(r, tuple) and l[0] == "==" and r[0] == "!=" and l[2] == 0 and r[2] == 0):
+            return False
+        # (a positive factor 1/SUM does not change the zero test)
+        def scaled(e, base):
+            if isinstance(e, (Matrix, tuple)):
+                return False
+            q = sp.cancel(e / base)
+            return q != 0 and not q.has(K)
+        return scaled(l[1], w0) and scaled(resolve_ite(r[1], hasd), d0)
+    rep.check(any(wd_throw(g) for g in fo.throws), "R1.3", "throw|w=0 with d!=0", "throw when a weight is 0 and its d coefficient is not",
+              "Map_Sphere::Initialize does not reject a non-zero d coefficient on a zero weight (throw guards: %s)" % [t[-160:] for t in tg], f.loc())
     for name, pred in need.items():
         rep.check(any(pred(s) for s in tg), "R1.3", "throw|" + name, "throw on " + name,
-                  "Map_Sphere::Initialize does not reject %s (throw guards: %s)" % (name, [t[-120:] for t in tg]), f.loc())
-    # AddElem call and body
-    ae = [n for n in f.walk() if n.get("k") == "mcall" and n.get("callee") == C + "Map_Sphere::AddElem"]
-    ok = len(ae) == 1 and re.match(r"^weights\[\w+\]$", show(ae[0]["args"][1])) is not None and re.match(r"^fweights\[\w+\]$", show(ae[0]["args"][2])) is not None \
-        and "getBead" in show(ae[0]["args"][0])
-    rep.check(ok, "R1.3", "addelem-call", "AddElem(bead, weights[i], fweights[i])", "AddElem is called with %s" % ([show(x) for x in ae[0]["args"]] if ae else "nothing"),
-              f.loc(ae[0] if ae else None))
+                  "Map_Sphere::Initialize does not reject %s (throw guards: %s)" % (name, [t[-160:] for t in tg]), f.loc())
     fa = F.one(C + "Map_Sphere::AddElem")
     rep.analysed(fa)
     ps = fa.j["params"]
